@@ -30,6 +30,14 @@ Graphs == <<
               <<"n2", "r", "l2">>, <<"n1", "data", "l2">>, <<"n2", "core", "n1">>},
    types |-> [n \in {"n1", "n2"} |-> IF n = "n1" THEN {"T", "C1", "security"} ELSE {"T", "doc"}],
    parent |-> [n \in {"n1", "n2"} |-> IF n = "n2" THEN "n1" ELSE "none"],
+   embedPred |-> [n \in {"n1", "n2"} |-> "q"]],
+  \* "types" again with ONE literal spelt with a blank inside: another graph, whose every serialisation equals the
+  \* corresponding serialisation of "types" once all white space is removed (each is validated right after its twin)
+  [name |-> "typesTwin", nodes |-> {"n1", "n2"}, lits |-> {"l 1", "l2"},
+   edges |-> {<<"n1", "p", "l 1">>, <<"n1", "q", "n2">>, <<"n2", "p", "l2">>, <<"n2", "q", "l 1">>, <<"n2", "r", "l 1">>,
+              <<"n2", "r", "l2">>, <<"n1", "data", "l2">>, <<"n2", "core", "n1">>},
+   types |-> [n \in {"n1", "n2"} |-> IF n = "n1" THEN {"T", "C1", "security"} ELSE {"T", "doc"}],
+   parent |-> [n \in {"n1", "n2"} |-> IF n = "n2" THEN "n1" ELSE "none"],
    embedPred |-> [n \in {"n1", "n2"} |-> "q"]] >>
 
 VARIABLES c, gi
@@ -40,9 +48,11 @@ Init == c = Canonical /\ gi \in 1..Len(Graphs)
 Toggle(f) == c' = [c EXCEPT ![f] = ~c[f]] /\ UNCHANGED gi
 SetCtx(x) == c' = [c EXCEPT !.ctx = x] /\ UNCHANGED gi
 SetWrapper(x) == c' = [c EXCEPT !.wrapper = x] /\ UNCHANGED gi
+SetKw(x) == c' = [c EXCEPT !.kw = x] /\ UNCHANGED gi
 Next == \/ \E f \in {"base", "embed", "order", "keyOrder", "arrays", "typeArr", "repeat", "litObj", "split"} : Toggle(f)
         \/ \E x \in {"none", "prefix", "vocab", "prefixRef"} : SetCtx(x)
         \/ \E x \in {"graph", "array"} : SetWrapper(x)
+        \/ \E x \in {"plain", "alias", "escaped"} : SetKw(x)
 Spec == Init /\ [][Next]_vars
 
 SameDenotation == RoundTrip(Graphs[gi], c)
